@@ -2174,6 +2174,68 @@ def adoption_keeps_own_priority(repo, run, rule):
         run.ok(rule, fi, 'attached nodes keep their own priority (%d rows)' % rows)
 
 
+def child_lookup_exact(repo, run, rule):
+    """ComposedNode.ayns.get_child / has_child evaluated on a mapping node with the children {0, '1', 'k'}: a child is found under exactly
+    the key it was stored with - 0 and '0', 1 and '1', 'k' and 'K' are different keys (YAML mappings may hold both spellings; merging
+    decides through these two accessors whether a key of the newer document already exists)"""
+    bad = []
+    rows = 0
+    A, B, C = node_obj('A'), node_obj('B'), node_obj('C')
+    D = Opaque('DEFAULT')
+    for q in ('ComposedNode.ayns.get_child', 'ComposedNode.ayns.has_child'):
+        fi = repo.func(q)
+        for name, want in ((0, A), ('0', None), ('1', B), (1, None), ('k', C), ('K', None), ('01', None), (' k', None), (2, None), ('', None)):
+            me = node_obj('map', 'ConfigDict', _children={0: A, '1': B, 'k': C})
+            f = FDE(repo, max_depth=6)
+            if q.endswith('get_child'):
+                r = fde_guard(lambda: f.call(fi, me, name, D))
+                exp = want if want is not None else D
+            else:
+                r = fde_guard(lambda: f.call(fi, me, name))
+                exp = want is not None
+            rows += 1
+            if r.raised:
+                bad.append('%s(%r) on children {0, \'1\', \'k\'} raises %s' % (q.split('.')[-1], name, r.raised))
+            elif r.ret is not exp and r.ret != exp:
+                bad.append('%s(%r) on a mapping with the children {0, \'1\', \'k\'} gives %r, expected %r: keys of different type / spelling are different keys' % (q.split('.')[-1], name, r.ret, exp))
+    run.table(rule, rows, 'get_child / has_child over stored and similar-looking keys')
+    if bad:
+        run.violation(rule, repo.func('ComposedNode.ayns.get_child'), 'child lookup by exact key', bad[0] + (' [%d rows]' % len(bad) if len(bad) > 1 else ''), witness=bad[:4])
+    else:
+        run.ok(rule, repo.func('ComposedNode.ayns.get_child'), 'children are found under exactly the key they were stored with (%d rows)' % rows)
+
+
+def promotion_keeps_safety(repo, run, rule):
+    """ConfigNode._maybe_promote evaluated for a plain container that won the merge over a !call / !bind node (which is then promoted to
+    stand for it): the promoted node carries the safety state the merge has just combined on the winner - explicit, inherited and
+    source-level - so an unsafe stage that empties a safe call (`f: !del {}`) leaves a call that is refused, not a safe one"""
+    fi = repo.func('ConfigNode._maybe_promote')
+    bad = []
+    rows = 0
+    for wcls, pcls in (('ConfigDict', 'BindNode'), ('ConfigDict', 'CallNode'), ('ConfigList', 'CallNode')):
+        if wcls not in repo.classes or pcls not in repo.classes:
+            continue
+        for field in ('_default_safe', '_safe', '_implicit_safe'):
+            winner = node_obj('winner', wcls, _children={}, **{'_default_safe': True, field: False})
+            loser = node_obj('promoted', pcls, _children={}, _default_safe=True, _func='f')
+            f = FDE(repo, stubs={'clear', 'update', 'extend', 'values'}, stub=lambda n, recv, a, k: [] if n == 'values' else None, max_depth=6)
+            r = fde_guard(lambda: f.call(fi, winner, loser))
+            rows += 1
+            if r.raised:
+                raise AnalysisError('%s: _maybe_promote(%s <- %s) not evaluable (%s)' % (rule, wcls, pcls, r.raised))
+            if r.ret is loser and loser.f.get(field) is not False:
+                bad.append('a %s that won the merge with %s=False is replaced by the promoted %s, which comes out with %s=%r: the unsafe origin of the merged result is forgotten and the call is evaluated without the safety check refusing it' % (wcls, field, pcls, field, loser.f.get(field)))
+            elif r.ret is not loser and r.ret is not winner:
+                raise AnalysisError('%s: _maybe_promote returned neither operand' % rule)
+    if not rows:
+        raise AnalysisError('%s: node classes not found' % rule)
+    run.table(rule, rows, 'promotion over winner kind x promoted kind x unsafe flag')
+    if bad:
+        run.violation(rule, fi, 'safety state of a promoted node', bad[0] + (' [%d rows]' % len(bad) if len(bad) > 1 else ''), witness=bad[:4])
+    else:
+        run.ok(rule, fi, 'a promoted node carries the winner\'s safety flags (%d rows)' % rows)
+
+
 def add_multiple_sources_table(repo, run, rule):
     """Builder.add_multiple_sources evaluated (add_source is a recording stand-in): source i is added with the i-th raw_yaml /
     filename / safe value when a sequence is given and with the single value when a scalar is given (a string counts as a scalar);
